@@ -322,8 +322,7 @@ func (c *FnCtx) copyBuiltin(st *State, dst, src Val) Val {
 		key := heapKey(dst.Root, nil)
 		h := c.heapGet(st, key, "Int")
 		old := c.defAlways("row", "(Array Int Int)", sx("select", h, dst.Ref))
-		row := c.declare("row", "(Array Int Int)")
-		c.assume(st, fmt.Sprintf("(forall ((i Int)) (! (= (select %s i) (ite (and (<= %s i) (< i (+ %s %s))) (sat %s (- i %s)) (select %s i))) :pattern ((select %s i))))", row, dst.Off, dst.Off, n, src.S, dst.Off, old, row))
+		row := c.defRow("Int", fmt.Sprintf("(ite (and (<= %s i) (< i (+ %s %s))) (sat %s (- i %s)) (select %s i))", dst.Off, dst.Off, n, src.S, dst.Off, old))
 		c.heapWriteRow(st, key, "Int", dst.Ref, row)
 		return intVal(it, n)
 	}
@@ -336,8 +335,7 @@ func (c *FnCtx) copyBuiltin(st *State, dst, src Val) Val {
 		h := c.heapGet(st, k.key, ls)
 		old := c.defAlways("row", "(Array Int "+ls+")", sx("select", h, dst.Ref))
 		srow := c.defAlways("row", "(Array Int "+ls+")", sx("select", h, src.Ref))
-		row := c.declare("row", "(Array Int "+ls+")")
-		c.assume(st, fmt.Sprintf("(forall ((i Int)) (! (= (select %s i) (ite (and (<= %s i) (< i (+ %s %s))) (select %s (+ (- i %s) %s)) (select %s i))) :pattern ((select %s i))))", row, dst.Off, dst.Off, n, srow, dst.Off, src.Off, old, row))
+		row := c.defRow(ls, fmt.Sprintf("(ite (and (<= %s i) (< i (+ %s %s))) (select %s (+ (- i %s) %s)) (select %s i))", dst.Off, dst.Off, n, srow, dst.Off, src.Off, old))
 		c.heapWriteRow(st, k.key, ls, dst.Ref, row)
 	}
 	return intVal(it, n)
@@ -372,7 +370,6 @@ func (c *FnCtx) appendBuiltin(st *State, s, t Val, rt types.Type) Val {
 		ls := sortOf(k.typ)
 		h := c.heapGet(st, k.key, ls)
 		old := c.defAlways("row", "(Array Int "+ls+")", sx("select", h, s.Ref))
-		row := c.declare("row", "(Array Int "+ls+")")
 		var srcAt string
 		if t.K == kStr {
 			srcAt = fmt.Sprintf("(sat %s (- i (+ %s %s)))", t.S, res.Off, s.Len)
@@ -381,8 +378,8 @@ func (c *FnCtx) appendBuiltin(st *State, s, t Val, rt types.Type) Val {
 			srcAt = fmt.Sprintf("(select %s (+ (- i (+ %s %s)) %s))", srow, res.Off, s.Len, t.Off)
 		}
 		// prefix copied (or kept), new elements written, rest of the object kept when in place
-		c.assume(st, fmt.Sprintf("(forall ((i Int)) (! (= (select %s i) (ite (and (<= (+ %s %s) i) (< i (+ %s %s))) %s (ite %s (select %s i) (select %s (+ (- i %s) %s))))) :pattern ((select %s i))))",
-			row, res.Off, s.Len, res.Off, newLen, srcAt, fits, old, old, res.Off, s.Off, row))
+		row := c.defRow(ls, fmt.Sprintf("(ite (and (<= (+ %s %s) i) (< i (+ %s %s))) %s (ite %s (select %s i) (select %s (+ (- i %s) %s))))",
+			res.Off, s.Len, res.Off, newLen, srcAt, fits, old, old, res.Off, s.Off))
 		c.heapWriteRow(st, k.key, ls, res.Ref, row)
 	}
 	return res
